@@ -766,7 +766,8 @@ namespace fixedmath
       //maximum performance for values in range thus fixed_unlikely
       if( fixed_unlikely( rad < -phi2 || rad > phi+phi2 ) )
         {
-        rad = as_fixed( ( phi2.v + rad.v) % _2phi.v - phi2.v );
+        //reduce before adding phi2, sum of phi2 and argument close to max() overflows
+        rad = as_fixed( ( phi2.v + rad.v % _2phi.v ) % _2phi.v - phi2.v );
         if( fixed_unlikely( rad < -phi2 ) )
           rad = as_fixed( rad.v + _2phi.v );
         }
